@@ -107,6 +107,8 @@ func init() {
 			Name: "C16-reset", Cfgs: cfgs([]int{1}, []int{0}, []api.RelMode{api.RelByIdx}, u), Filters: filters, Obs: obs, Slots: 1,
 			Oracle: drv.Oracle{World: true, Typed: true, Filters: true, Family: relFamily()[:6], Lock: true, Events: true, Stats: true, Pool: true, Res: true},
 			Preludes: [][]model.Op{rich, lean, only6, nil,
+				// a table of 71 rows (column resets above the 64-row fast path) and one relation table
+				append(append([]model.Op{}, lean...), repeatOps(70, nP)...),
 				append(append([]model.Op{}, rich...), model.Op{K: model.OpReset}, model.Op{K: model.OpShrink}),
 				append(append([]model.Op{}, lean...), model.Op{K: model.OpReset}, model.Op{K: model.OpShrink}, model.Op{K: model.OpNew, Path: model.PathMapN, Cs: ct.Of(ct.P)}),
 			},
@@ -117,7 +119,7 @@ func init() {
 			sc.Cfgs = cfgs([]int{1, 2}, []int{0}, []api.RelMode{api.RelByIdx}, u)
 		}
 		return &Check{ID: "C16", Scenarios: []*engine.Scenario{sc},
-			Rule:   "histories H1 (<=1 quick / <=2 thorough operations: removals, Shrink, query open/close, filter and observer (un)registration, resources) after 4 preludes (rich: observers of all 7+2 event types, active/empty/freed relation tables, three registered filters, resources, recycled ids, used queries; OnRemoveRelations observer only; high event ids only; empty), then Reset, then all histories H2 up to depth 3 over the relation + batch alphabet with re-registration of the same observers and filters, resources, queries, Emit and Stats; oracle in every state after the Reset: no entities/resources/cached filters/observers, unlocked, no pre-Reset observer fires (event multiset), full model comparison incl. filter family, pool counts and Stats invariants; non-trivial = state after a Reset",
+			Rule:   "histories H1 (<=1 quick / <=2 thorough operations: removals, Shrink, query open/close, filter and observer (un)registration, resources) after 5 preludes (a table of 71 rows; rich: observers of all 7+2 event types, active/empty/freed relation tables, three registered filters, resources, recycled ids, used queries; OnRemoveRelations observer only; high event ids only; empty), then Reset, then all histories H2 up to depth 3 over the relation + batch alphabet with re-registration of the same observers and filters, resources, queries, Emit and Stats; oracle in every state after the Reset: no entities/resources/cached filters/observers, unlocked, no pre-Reset observer fires (event multiset), full model comparison incl. filter family, pool counts and Stats invariants; non-trivial = state after a Reset",
 			Assume: []string{"equivalence with a fresh world is judged through the reference model (a fresh model after Reset), not by a second real world"},
 		}
 	}
